@@ -346,82 +346,7 @@ func runC10(c *Ctx, r *Run) {
 		r.Fail("FS-1", "pkg/zk|challenge-functions", "pkg/zk", "15 proof systems with a challenge function", fmt.Sprintf("only %d found", nChallenge))
 	}
 
-	// OB-V3
-	tabPath := filepath.Join(verifDirGlobal, "tables", "zk_guards.json")
-	b, err := os.ReadFile(tabPath)
-	if err != nil {
-		r.Unresolved("OB-V3", "tables/zk_guards.json")
-	} else {
-		var tab map[string]map[string][]string
-		if err := json.Unmarshal(b, &tab); err != nil {
-			r.Unresolved("OB-V3", "tables/zk_guards.json (parse)")
-		}
-		cur := map[string]map[string]guard{}
-		for _, z := range zs {
-			for _, fn := range verifierFuncs(c, z) {
-				r.Analysed(c.FuncName(fn))
-				m := map[string]guard{}
-				for _, g := range liftedGuards(fn, 0) {
-					if old, ok := m[g.key()]; !ok || (!guardCoversAccepts(old) && guardCoversAccepts(g)) {
-						m[g.key()] = g
-					}
-				}
-				cur[c.FuncName(fn)] = m
-			}
-		}
-		rels := make([]string, 0, len(tab))
-		for k := range tab {
-			rels = append(rels, k)
-		}
-		sort.Strings(rels)
-		for _, rel := range rels {
-			fns := make([]string, 0)
-			for k := range tab[rel] {
-				fns = append(fns, k)
-			}
-			sort.Strings(fns)
-			for _, fname := range fns {
-				m, ok := cur[fname]
-				if !ok {
-					// (an unexported helper that changed kind: method <-> plain function; see checkGuardInventory)
-					if alt := sameHelperOtherKind(fname, cur); alt != "" {
-						have := map[string]int{}
-						for k2 := range cur[alt] {
-							have[strings.SplitN(k2, "(", 2)[0]]++
-						}
-						for _, k := range tab[rel][fname] {
-							dk := strings.SplitN(k, "(", 2)[0]
-							okd := have[dk] > 0
-							have[dk]--
-							r.Check("OB-V3", fname+"|"+k, "?", okd, "reject guard "+k+" is present (the helper is now "+alt+": compared by decider)", "reject guard "+k+" recorded for "+fname+" has no counterpart in "+alt)
-						}
-						continue
-					}
-					r.Unresolved("OB-V3", fname)
-					continue
-				}
-				for _, k := range tab[rel][fname] {
-					g, present := m[k]
-					pos := "?"
-					d := ""
-					okc := false
-					if present {
-						pos = c.Pos(g.pos)
-						okc = guardCoversAccepts(g)
-						if !okc {
-							d = "guard " + k + " no longer covers every accepting return of " + fname + " (an accept path bypasses it)"
-						}
-					} else {
-						d = "reject guard " + k + " recorded for " + fname + " is gone (check deleted, or it no longer depends on the same statement/proof fields): inputs it refused are now accepted"
-					}
-					r.Check("OB-V3", fname+"|"+k, pos, present && okc, "reject guard "+k+" is present and covers acceptance", d)
-				}
-			}
-		}
-	}
-
-	// ---- the shared validators the proofs call before touching responses (range / unit / nil tests per element)
-	checkGuardInventory(c, r, "OB-V3", "round_guards.json", func(n string) bool { return strings.HasPrefix(n, "pkg/math/arith.") })
+	checkZKInventory(c, r, "OB-V3", zs, nil)
 	// ---- COVER-2: repetition loops of the proofs cover every repetition
 	{
 		var fns []*ssa.Function
@@ -535,4 +460,89 @@ func derefStruct(t types.Type) (*types.Struct, bool) {
 	}
 	st, ok := t.Underlying().(*types.Struct)
 	return st, ok
+}
+
+// checkZKInventory: the reject guards of the proof verifiers (tables/zk_guards.json), for the packages relFilter selects.
+func checkZKInventory(c *Ctx, r *Run, rule string, zs []zkPkg, relFilter func(string) bool) {
+	// OB-V3
+	tabPath := filepath.Join(verifDirGlobal, "tables", "zk_guards.json")
+	b, err := os.ReadFile(tabPath)
+	if err != nil {
+		r.Unresolved(rule, "tables/zk_guards.json")
+	} else {
+		var tab map[string]map[string][]string
+		if err := json.Unmarshal(b, &tab); err != nil {
+			r.Unresolved(rule, "tables/zk_guards.json (parse)")
+		}
+		cur := map[string]map[string]guard{}
+		for _, z := range zs {
+			for _, fn := range verifierFuncs(c, z) {
+				r.Analysed(c.FuncName(fn))
+				m := map[string]guard{}
+				for _, g := range liftedGuards(fn, 0) {
+					if old, ok := m[g.key()]; !ok || (!guardCoversAccepts(old) && guardCoversAccepts(g)) {
+						m[g.key()] = g
+					}
+				}
+				cur[c.FuncName(fn)] = m
+			}
+		}
+		rels := make([]string, 0, len(tab))
+		for k := range tab {
+			rels = append(rels, k)
+		}
+		sort.Strings(rels)
+		for _, rel := range rels {
+			if relFilter != nil && !relFilter(rel) {
+				continue
+			}
+			fns := make([]string, 0)
+			for k := range tab[rel] {
+				fns = append(fns, k)
+			}
+			sort.Strings(fns)
+			for _, fname := range fns {
+				m, ok := cur[fname]
+				if !ok {
+					// (an unexported helper that changed kind: method <-> plain function; see checkGuardInventory)
+					if alt := sameHelperOtherKind(fname, cur); alt != "" {
+						have := map[string]int{}
+						for k2 := range cur[alt] {
+							have[strings.SplitN(k2, "(", 2)[0]]++
+						}
+						for _, k := range tab[rel][fname] {
+							dk := strings.SplitN(k, "(", 2)[0]
+							okd := have[dk] > 0
+							have[dk]--
+							r.Check(rule, fname+"|"+k, "?", okd, "reject guard "+k+" is present (the helper is now "+alt+": compared by decider)", "reject guard "+k+" recorded for "+fname+" has no counterpart in "+alt)
+						}
+						continue
+					}
+					r.Unresolved(rule, fname)
+					continue
+				}
+				for _, k := range tab[rel][fname] {
+					g, present := m[k]
+					pos := "?"
+					d := ""
+					okc := false
+					if present {
+						pos = c.Pos(g.pos)
+						okc = guardCoversAccepts(g)
+						if !okc {
+							d = "guard " + k + " no longer covers every accepting return of " + fname + " (an accept path bypasses it)"
+						}
+					} else {
+						d = "reject guard " + k + " recorded for " + fname + " is gone (check deleted, or it no longer depends on the same statement/proof fields): inputs it refused are now accepted"
+					}
+					r.Check(rule, fname+"|"+k, pos, present && okc, "reject guard "+k+" is present and covers acceptance", d)
+				}
+			}
+		}
+	}
+
+	// ---- the shared validators the proofs call before touching responses (range / unit / nil tests per element)
+	if relFilter == nil {
+		checkGuardInventory(c, r, rule, "round_guards.json", func(n string) bool { return strings.HasPrefix(n, "pkg/math/arith.") })
+	}
 }
